@@ -18,7 +18,10 @@ KANI = [
     KH("c08_geometry::c08_bbox_intersection_grid", "quick", 1500,
        "BoundingBox::intersection = exact overlap area; symmetric; 0 <=> no overlap",
        "left/top k/4 in [-16,16], width/height k/4 in (0,16]", [B + "BoundingBox::intersection"]),
-    KH("c08_geometry::c08_bbox_iou_grid", "quick", 1800,
+    KH("c08_geometry::c08_bbox_iou_small", "quick", 900,
+       "BoundingBox IoU = I/(A1+A2-I) bit-exactly, in [0,1], symmetric, 1 for identical boxes, 0 <=> disjoint, None for a missing side",
+       "left/top k/4 in [-1.5,1.5], width/height k/4 in (0,1.5]", [B + "BoundingBox::calculate_metric_object"]),
+    KH("c08_geometry::c08_bbox_iou_grid", "thorough", 2400,
        "BoundingBox IoU = I/(A1+A2-I) bit-exactly, in [0,1], symmetric, 1 for identical boxes, 0 <=> disjoint, None for a missing side",
        "left/top k/4 in [-4,4], width/height k/4 in (0,4]", [B + "BoundingBox::calculate_metric_object"]),
     KH("c08_geometry::c08_too_far_sound_grid", "quick", 1800,
